@@ -176,6 +176,34 @@ Theorem consistent_update_accepted :
 Proof. exact acceptance_characterised. Qed.
 Print Assumptions consistent_update_accepted.
 
+(* ------------------------------------------------------------------ restarts *)
+
+(* the life of a DATABASE: epochs, each one Witness value created by witness.New over the table the
+   previous one left (process restart, second instance), each with its own set of configured logs
+   ([run_epochs], [restart] of WitnessModel.v).  What is held for a log whose own configuration
+   entry stays the same survives every restart - however many other logs come and go -, its size
+   never shrinks and equal size means the very same STH *)
+Theorem held_survives_restarts :
+  forall H hlen strict ch decode sig_ok sign (eps : list (config * list op)) st id (idh0 : config) p1,
+  Forall (fun ep => fst ep id = idh0 id) eps ->
+  held idh0 decode sig_ok st id = Some p1 ->
+  exists p2, held idh0 decode sig_ok (fst (run_epochs H hlen strict ch decode sig_ok sign st eps)) id = Some p2
+    /\ p_size p1 <= p_size p2 /\ (p_size p1 = p_size p2 -> p2 = p1).
+Proof. exact held_survives_restarts_lemma. Qed.
+Print Assumptions held_survives_restarts.
+
+(* under one unchanged configuration restarts are invisible: the epochs answer, operation for
+   operation, as one Witness value answers the concatenated history, and leave the same table -
+   so every theorem above holds for executions interrupted by any number of restarts *)
+Theorem restarts_invisible :
+  forall H hlen strict ch decode sig_ok sign (idh : config) (eps : list (config * list op)) st,
+  Forall (fun ep => fst ep = idh) eps ->
+  run H hlen strict ch idh decode sig_ok sign st (concat (map snd eps))
+  = (fst (run_epochs H hlen strict ch decode sig_ok sign st eps),
+     concat (snd (run_epochs H hlen strict ch decode sig_ok sign st eps))).
+Proof. exact restarts_invisible_lemma. Qed.
+Print Assumptions restarts_invisible.
+
 (* ------------------------------------------------------------------ non-vacuity *)
 
 (* a toy instance: H = 4-byte checksum, raw STH bytes = [size; root...], one configured log
@@ -215,4 +243,26 @@ Proof.
   apply (il_step [] _ _ [_]). apply (il_step [] _ [] [_]).
   apply (il_step [[]] _ _ []). apply (il_step [[]] _ _ []). apply (il_step [[]] _ _ []). apply (il_step [[]] _ _ []).
   apply il_done. repeat constructor.
+Qed.
+
+(* a restart into a configuration with a second log "B": the size-3 STH of A is still held, the
+   stale size-2 one is refused and answered with it; B starts on first use *)
+Example toy_restart :
+  let idB : logid := hex "42"%string in
+  let idhash2 (i : logid) : option (option bytes) :=
+    if bytes_eqb i Toy.idA then Some (Some (rep 32 x01)) else if bytes_eqb i idB then Some (Some (rep 32 x02)) else None in
+  let eps := [ (Toy.idhash, [ OUpdate Toy.idA (Toy.sth 2 (firstN 2 Toy.leaves)) [] NoFault;
+                              OUpdate Toy.idA (Toy.sth 3 Toy.leaves) (cproof Toy.H 2 Toy.leaves) NoFault;
+                              OUpdate idB (Toy.sth 1 (firstN 1 Toy.fork)) [] NoFault ]);       (* B is not configured yet *)
+               (idhash2,     [ OGetSTH Toy.idA false;
+                              OUpdate Toy.idA (Toy.sth 2 (firstN 2 Toy.leaves)) [] NoFault;      (* stale after the restart *)
+                              OUpdate idB (Toy.sth 1 (firstN 1 Toy.fork)) [] NoFault ]) ] in
+  let r := run_epochs Toy.H 4 false false Toy.decode Toy.sig_ok Toy.sign [] eps in
+  map (map (fun o => match o with ORsp (_, e) => Some e | _ => None end)) (snd r)
+    = [[Some EOk; Some EOk; Some ENotFound]; [Some EOk; Some EFailedPre; Some EOk]]
+  /\ lookup (fst r) Toy.idA = Some (Toy.sth 3 Toy.leaves)
+  /\ Forall (fun ep => fst ep Toy.idA = Toy.idhash Toy.idA) eps.
+Proof.
+  cbv zeta. split; [vm_compute; reflexivity|]. split; [vm_compute; reflexivity|].
+  repeat constructor.
 Qed.
